@@ -109,6 +109,8 @@ let report line codes =
     Printf.printf "FAIL %s :: %s\n" (codes_to_string codes) line
   end
 
+let mode = ref "C12"
+
 let top_of_token = function
   | "Exp" -> Some TExp | "Ln" -> Some TLn | "Log10" -> Some TLog10 | "Pow" -> Some TPow | _ -> None
 
@@ -133,7 +135,8 @@ let judge (lhs : string list) (rhs : string list) (line : string) =
        let rec go bits tries =
          let codes = oracle_c12 (z_of_int bits) t c xd yd o in
          if is_unknown codes && tries > 0 then (incr escalated; go (bits * 2) (tries - 1)) else codes in
-       let codes = go start 3 in
+       (* C04 only looks for panics, hangs and ill-formed results; C07 only at the fit of the result *)
+       let codes = if !mode = "C12" then go start 3 else [] in
        let hard = List.filter (fun z -> z <> Z0) codes in
        if is_unknown codes then incr undecided;
        let k = mkCase ORound c xd xd Z0 ANone xd in
@@ -144,6 +147,7 @@ let judge (lhs : string list) (rhs : string list) (line : string) =
   | _ -> report line [z_of_int 99]
 
 let () =
+  if Array.length Sys.argv > 1 then mode := Sys.argv.(1);
   (try
     while true do
       let line = input_line stdin in
